@@ -541,4 +541,75 @@ def runCL (cfg : CCfg) (O : COracle) : Nat → List COp → List Out
   | _, [] => []
   | d, op :: ops => let r := stepCL cfg O d op; r.2 :: runCL cfg O r.1 ops
 
+/-! ## 6. stability pipeline cache (`compute_stability(options)` of the manifold and libration-point services) -/
+
+/-- the service keeps ONE `StabilityPipeline` object (`self.generator`, dropped by the config setter) and caches a
+*reference* to it under every options key; a pipeline holds the results of its last `compute` only -/
+structure SCfg where
+  /-- every cache entry owns its own pipeline object (so a later computation cannot overwrite its results) -/
+  pipelinePerKey : Bool
+  /-- the cache key contains the eigendecomposition configuration (or its setter empties the cache) -/
+  keyHasConfig : Bool
+deriving DecidableEq, Repr
+
+def SCfg.sound (c : SCfg) : Bool := c.pipelinePerKey && c.keyHasConfig
+
+inductive SOp where
+  | stab (o : Tok)          -- `compute_stability(options o).eigenvalues`
+  | eig                     -- `eigenvalues / is_stable / sn / un …` (default options)
+  | setOpts (o : Tok)       -- `eigendecomposition_options := o`
+  | setCfg (c : Tok)        -- `eigendecomposition_config := c`
+deriving DecidableEq, Repr
+
+structure SState where
+  cfg : Tok
+  defOpt : Tok
+  cur : Option Nat                           -- identity of `self._generator`
+  next : Nat                                 -- next fresh object identity
+  held : List (Nat × Tok)                    -- results currently held by each pipeline object (first match wins)
+  cache : List ((Option Tok × Tok) × Nat)    -- key ↦ identity of the cached pipeline object
+deriving Repr
+
+def freshS (c o : Tok) : SState := { cfg := c, defOpt := o, cur := none, next := 0, held := [], cache := [] }
+
+/-- `compute_stability(options o)` followed by reading the returned pipeline; `R cfg opts` = the eigen-classification -/
+def stabS (sc : SCfg) (R : Tok → Tok → Tok) (s : SState) (o : Tok) : SState × Out :=
+  let key : Option Tok × Tok := (if sc.keyHasConfig then some s.cfg else none, o)
+  match lookup key s.cache with
+  | some i =>
+      match lookup i s.held with
+      | some r => (s, .tok r)
+      | none => (s, .err 5)
+  | none =>
+      let r := R s.cfg o
+      if sc.pipelinePerKey then
+        ({ s with next := s.next + 1, held := (s.next, r) :: s.held, cache := (key, s.next) :: s.cache }, .tok r)
+      else
+        match s.cur with
+        | some g => ({ s with held := (g, r) :: s.held, cache := (key, g) :: s.cache }, .tok r)
+        | none =>
+            ({ s with cur := some s.next, next := s.next + 1, held := (s.next, r) :: s.held,
+                      cache := (key, s.next) :: s.cache }, .tok r)
+
+def stepS (sc : SCfg) (R : Tok → Tok → Tok) (s : SState) : SOp → SState × Out
+  | .stab o => stabS sc R s o
+  | .eig => stabS sc R s s.defOpt
+  | .setOpts o => ({ s with defOpt := o }, .unit)
+  | .setCfg c => ({ s with cfg := c, cur := none }, .unit)
+
+def runS (sc : SCfg) (R : Tok → Tok → Tok) : SState → List SOp → List Out
+  | _, [] => []
+  | s, op :: ops => let r := stepS sc R s op; r.2 :: runS sc R r.1 ops
+
+/-- fresh twin: logical state = (configuration, default options) -/
+def stepSL (R : Tok → Tok → Tok) (l : Tok × Tok) : SOp → (Tok × Tok) × Out
+  | .stab o => (l, .tok (R l.1 o))
+  | .eig => (l, .tok (R l.1 l.2))
+  | .setOpts o => ((l.1, o), .unit)
+  | .setCfg c => ((c, l.2), .unit)
+
+def runSL (R : Tok → Tok → Tok) : Tok × Tok → List SOp → List Out
+  | _, [] => []
+  | l, op :: ops => let r := stepSL R l op; r.2 :: runSL R r.1 ops
+
 end HitenModel.C20
